@@ -583,7 +583,9 @@ KIND_P = [0.30, 0.27, 0.27, 0.10, 0.06]
 
 def _gen_dist(rng, tier):
     r = rng.random()
-    if r < 0.6:
+    if r < 0.004:
+        pts, src = gen.long_spiky(rng, 4200, 7000), 'long-spiky'      # long point sets: size-dependent code paths
+    elif r < 0.6:
         nmax = 60 if tier == 'quick' or rng.random() < 0.9 else 600
         pts, meta = gen.curve(rng, family=pick(rng, CURVES), nmax=nmax, nmin=2)
         src = meta['family']
